@@ -85,7 +85,7 @@ def search():
     patterns = [[0.0] * k for k in range(1, 7)] + [[0, 0.1, 0.2, 0.3, 0.4, 0.5], [0, 0, 1.0, 1.0, 1.0, 2.0],
                                                    [0, 0.999, 1.0, 1.001, 2.0], [0, 0.5, 0.5, 1.5, 1.5, 1.5, 3.0]]
     for limit in (1, 2, 3):
-        for period in (1.0, 0.25, 2, timedelta(seconds=1)):
+        for period in (1.0, 0.25, 2, timedelta(seconds=1), timedelta(milliseconds=1500), timedelta(days=1, microseconds=5)):
             for arrivals in patterns:
                 for duration in (0, 0.3, 1.7):
                     n += 1
